@@ -215,6 +215,7 @@ def run(chk: Check):
         "expression is that rule's atom or an excluded position. H3: the node returned by a builder carries the span it was called "
         "with. H4: $NAME and ${expr} are offered as Store targets. Tree equality with the written-out translation in every context is "
         "not decided.")
+    chk.explanation += ' Also evaluated here: the subprocess-form rules of C06, the path-token flag pairing (N2) and the backtick-lexeme / string-continuation rules (K6), which the listed constructs rest on.'
     chk.trusted = ["xpverif.absint shapes", "the translation table in the property statement"]
     chk.assumptions = ["C04's context/typestate rules cover the Store variants"]
     ir = repo.ir_x()
